@@ -13,7 +13,7 @@ def copyFresh : Bool := true
 
 /-- statements of `spox._adapt.adapt_inline` after the no-conversion early returns, as far as
     `node.model` is concerned -/
-def swapIR : List SStmt := [.other, .other, .other, .other, .other, .saveBase, .tryFinally [.setTarget, .emit] [.restoreBase], .other, .other]
+def swapIR : List SStmt := [.other, .other, .other, .other, .other, .other, .saveBase, .tryFinally [.setTarget, .emit] [.restoreBase], .other, .other]
 
 /-- the decision of `spox._adapt.adapt_inline` as written (normalised source text of every expression it
     is made of): where the target and source versions come from, which guards return the build's
